@@ -41,9 +41,14 @@ MulSmallC(a,m,i,c,acc) == IF i > Len(a) THEN (IF c = 0 THEN acc ELSE acc \o From
    ELSE LET t == a[i]*m + c IN MulSmallC(a,m,i+1,t \div 256, Append(acc, t % 256))
 MulSmall(a,m) == Strip(MulSmallC(a,m,1,0,<<>>))
 Shift(a,k) == IF a = <<>> THEN a ELSE [j \in 1..k |-> 0] \o a         \* a * 256^k
-Mul(a,b) == LET RECURSIVE Go(_,_)
-                Go(i,acc) == IF i > Len(b) THEN acc ELSE Go(i+1, Add(acc, Shift(MulSmall(a,b[i]), i-1)))
-            IN Strip(Go(1,<<>>))
+\* column-wise product: column k collects a[i]*b[k+1-i] (integer sums, no sequence copying), then one carry pass
+Mul(a,b) == IF a = <<>> \/ b = <<>> THEN <<>> ELSE
+  LET la == Len(a) lb == Len(b)
+      Col(k) == LET RECURSIVE S(_,_) S(i,acc) == IF i > Min(k, la) THEN acc ELSE S(i+1, acc + a[i]*b[k+1-i]) IN S(Max(1, k+1-lb), 0)
+      RECURSIVE Carry(_,_,_)
+      Carry(k, c, acc) == IF k > la+lb-1 THEN (IF c = 0 THEN acc ELSE acc \o FromSmall(c))
+                          ELSE LET t == Col(k) + c IN IF t >= 0 THEN Carry(k+1, t \div 256, Append(acc, t % 256)) ELSE acc
+  IN Strip(Carry(1, 0, <<>>))
 
 RECURSIVE SubC(_,_,_,_,_)
 SubC(a,b,i,br,acc) == IF i > Len(a) THEN acc
@@ -71,12 +76,24 @@ FitsU64(a) == Len(a) <= 8
 IsFloor(q,n,d) == Leq(Mul(q,d), n) /\ Lt(n, Mul(Add(q,One), d))
 IsCeil(q,n,d) == Leq(n, Mul(q,d)) /\ (q = Zero \/ Lt(Mul(Sub(q,One), d), n))
 
-\* decimal digits (ASCII codes) of a, most significant first; "0" for zero
+\* decimal digits (ASCII codes) of a, most significant first; "0" for zero.
+\* Works in chunks of six digits (divisor 10^6 < 2^22): sequences are immutable in TLC, so every
+\* limb pass is quadratic and the number of passes is what matters.
+Six(r) == <<48 + ((r \div 100000) % 10), 48 + ((r \div 10000) % 10), 48 + ((r \div 1000) % 10), 48 + ((r \div 100) % 10), 48 + ((r \div 10) % 10), 48 + (r % 10)>>
+RECURSIVE DropZeros(_)
+DropZeros(s) == IF Len(s) > 1 /\ s[1] = 48 THEN DropZeros(Tail(s)) ELSE s
 Dec(a) == LET RECURSIVE G(_,_)
-              G(x,acc) == IF x = <<>> THEN acc ELSE LET qr == DivModSmall(x,10) IN G(qr[1], <<48 + qr[2]>> \o acc)
-          IN IF a = <<>> THEN <<48>> ELSE G(a, <<>>)
-\* value of a string of ASCII digits
-FromDec(s) == LET RECURSIVE G(_,_) G(i,acc) == IF i > Len(s) THEN acc ELSE G(i+1, Add(MulSmall(acc,10), FromSmall(s[i]-48))) IN G(1, Zero)
+              G(x,acc) == IF x = <<>> THEN acc ELSE LET qr == DivModSmall(x,1000000) IN IF qr[2] >= 0 THEN G(qr[1], Six(qr[2]) \o acc) ELSE acc
+          IN IF a = <<>> THEN <<48>> ELSE DropZeros(G(a, <<>>))
+\* value of a string of ASCII digits (six at a time)
+DigitsVal(s, i, j) == LET RECURSIVE V(_,_) V(k,acc) == IF k > j THEN acc ELSE V(k+1, acc*10 + (s[k]-48)) IN V(i, 0)
+Pow10(k) == CASE k = 0 -> 1 [] k = 1 -> 10 [] k = 2 -> 100 [] k = 3 -> 1000 [] k = 4 -> 10000 [] k = 5 -> 100000 [] OTHER -> 1000000
+FromDec(s) == LET RECURSIVE G(_,_)
+                  G(i,acc) == IF i > Len(s) THEN acc
+                              ELSE LET j == Min(i+5, Len(s))
+                                       a2 == Add(MulSmall(acc, Pow10(j-i+1)), FromSmall(DigitsVal(s, i, j)))
+                                   IN IF Len(a2) >= 0 THEN G(j+1, a2) ELSE acc
+              IN G(1, Zero)
 
 \* ---- signed integers: [neg |-> BOOLEAN, mag |-> BigNat], zero has neg = FALSE ----
 SI(neg, mag) == [neg |-> neg /\ mag # <<>>, mag |-> mag]
